@@ -70,7 +70,7 @@ theorem tr_invariance_single_field_subscriptions (T : Tr) (hinj : ∀ a b, T.fra
 
 /-- **perm_selections / perm_arguments / alpha_fragments for all 25 rules of `ProvedTrAll`** (all but
     OverlappingFieldsCanBeMerged; SingleFieldSubscriptions now included): code of /repo HEAD, documents with unique
-    fragment names that are non-empty before and after the renaming (needed by NoFragmentCycles only) -/
+    fragment names that are non-empty before and after the renaming (needed by NoFragmentCycles only) [ALONE-RUN statement, rule by rule: each rule visitor in a chain of its own; for the verdict of the chain `validate_ast` runs see `Props/C06_chain.lean: chainM_six_transformations`.] -/
 theorem tr_invariance_25_partial (T : Tr) (hinj : ∀ a b, T.frag a = T.frag b → a = b) (s : SchemaD) (fx : Fixes)
     (hfx : HeadVars fx) (d : Doc) (hnd : Spec.uniqueFragmentNames d) (hne : NamesNonEmpty d)
     (hne' : NamesNonEmpty (T.doc d)) (r : Rule) (hr : r ≠ .overlappingFieldsCanBeMerged) :
